@@ -438,3 +438,160 @@ class SyncIterFinalizeNoop(SyncIterFinalize):
 
 UNITS = [ABufFinalizeNoop, SyncIterFinalizeNoop, RunWorker, RunWorkerNoExtern, RunWorkerUnderStop, BufIter, BufStart, BufFinalize, BufFinalizeNoop,
          ARunWorker, ARunWorkerUnderStop, ABufStart, ABufFinalize, ABufIter, SyncIterStart, SyncIterFinalize]
+
+
+# ================================================================ SyncIter worker / iterator, ParmapperAsync
+class SyncIterWorkerMain(RunWorker):
+    """SyncIter's worker ends without a terminal item only when it has seen the stop flag (set by _finalize, i.e. the consumer is gone)."""
+    file = FA
+    qual = 'SyncIter._worker.<locals>.main'
+    qfield = '_q'
+    has_extern = False
+    canaries = (('StopRequested not forwarded', 'except (Exception, StopRequested) as e:', 'except Exception as e:', 'never Exception/StopRequested'),)
+
+    def extra_setup(self, ex, st):
+        # the worker's own `q.get_nowait()` drain on stop
+        def get_nowait(e, s, a, k, n):
+            return [('ok', s, fresh('drained')), e.raise_new(s.fork(), 'queue.Empty')]
+        self.q.m_get_nowait = get_nowait
+
+    @property
+    def loops(self):
+        base = super().loops
+        base[1] = LoopSpec(inv=lambda s, ex: z3.And(self.stopped.get(s, 'flag'), z3.Not(s.ghost['term'])),
+                           keep_ghost=('term', 'stopped_phase', 'q.nput', 'src.seen', 'src.done', 'src.failed', 'src.pulls'))
+        return base
+
+    def post(self, ex, outs):
+        for k, s, p in outs:
+            if k in ('normal', 'return'):
+                ex.oblige(s, 'exit: a terminal item was put last -- or the stop flag was seen (the consumer has closed the iterator) [S3]',
+                          z3.Or(s.ghost['term'], self.stopped.get(s, 'flag')))
+                kinds = {b[1].split()[0] for b in s.ghost.get('#blocking', ())}
+                ex.oblige(s, 'exit: the only blocking actions of the worker are puts on the hand-off queue [E3]', z3.BoolVal(kinds <= {'put'}))
+            else:
+                ex.oblige(s, 'exit(raise): never Exception/StopRequested', z3.Not(is_failure(p)))
+
+
+class SyncIterIter(BufIter):
+    file = FA
+    qual = 'SyncIter.__iter__'
+    canaries = (('finalizer not run', '            finally:\n                self._finalize()', '            finally:\n                pass', 'finalizer ran'),)
+    unreachable_ok = ('yield from self._instream',)      # the pass-through branch for sources that are already sync iterables
+
+    def setup(self, ex):
+        st = super().setup(ex)
+        ex.globals['isiterable'] = Fn(lambda e, s, a, k, n: [('ok', s, z3.BoolVal(False))], name='isiterable')
+        self.me.set(st, '_instream', z3.Const('async_source', Val))
+        return st
+
+    def start_contract(self, ex, st, args, kwargs, node):
+        (k, st, v), = super().start_contract(ex, st, args, kwargs, node)
+        self.me.set(st, '_q', self.q)
+        return [(k, st, v)]
+
+
+class FifoGen(Obj):
+    def __init__(self, ex, args, kwargs):
+        super().__init__(ex, 'fifo_stream(...)')
+        self.args, self.kwargs = args, kwargs
+
+    def havoc(self, ex, st):
+        pass
+
+    def yield_from(self, ex, st, node):
+        st = st.fork()
+        st.ghost['delegated'] = st.ghost.get('delegated', 0) + 1
+        s2 = st.fork()
+        e = fresh('fifo_exc')
+        s2.assume(V.isinst(e, 'BaseException'), *V.cls_facts(e))
+        return [('ok', st, NONE), ('raise', s2, e)]
+
+
+class ParmapperAsyncIter(Unit):
+    prop = 'C05'
+    file = FS
+    qual = 'ParmapperAsync.__iter__'
+    canaries = (('helper thread not joined', '            worker.join()', '            pass', 'joined'),
+                ('stop flag not set', '            to_stop.set()\n            worker.join()', '            worker.join()', 'stop flag'))
+
+    def setup(self, ex):
+        st = St()
+        self.kw, self.actx = (z3.Const(n, Val) for n in ('func_kwargs', 'async_context'))
+        from pyvc.core import KwPack
+        self.me = Rec(ex, 'self', immutable=True).init(st, _instream=z3.Const('instream', Val), _func=z3.Const('func', Val), _fifo_capacity=z3.Int('cap'),
+                                                       _return_x=z3.Bool('rx'), _return_exceptions=z3.Bool('rexc'), _preprocessor=z3.Const('pre', Val),
+                                                       _func_kwargs=KwPack(self.kw), _async_context=KwPack(self.actx), _name=z3.String('name'))
+        st.env['self'] = self.me
+        self.evs = []
+
+        def mkev(e, s, a, k, n):
+            ev = Event(e, 'to_stop')
+            s = s.fork()
+            ev.init(s)
+            self.evs.append(ev)
+            return [('ok', s, ev)]
+        ex.globals['threading.Event'] = Fn(mkev)
+        ex.globals['asyncio.new_event_loop'] = Fn(lambda e, s, a, k, n: [('ok', s, fresh('loop'))])
+        ex.globals['Thread'] = ThreadCtor()
+        ex.globals['fifo_stream'] = Fn(lambda e, s, a, k, n: [('ok', s, FifoGen(e, a, k))], name='fifo_stream')
+        return st
+
+    def on_thread_start(self, ex, st, t, node):
+        args = unbox_handle(ex, t.args)
+        ok = isinstance(t.target, Closure) and t.target.node.name == '_do_async' and isinstance(args, PyTuple) and len(args.items) == 2 \
+            and len(self.evs) == 1 and unbox_handle(ex, args.items[0]) is self.evs[0]
+        ex.oblige(st, f'line {node.lineno}: spawn binding: the helper thread runs _do_async(<this stop flag>, loop)', z3.BoolVal(bool(ok)))
+
+    def post(self, ex, outs):
+        for k, s, p in outs:
+            th = [o for o in ex.objs.values() if isinstance(o, ThreadObj)]
+            ok = len(th) == 1 and len(self.evs) == 1
+            ex.oblige(s, f'exit({k}): the stop flag is set and the helper thread has been joined on every exit path [C05]',
+                      z3.And(z3.BoolVal(ok), self.evs[0].get(s, 'flag'), th[0].get(s, 'started'), th[0].get(s, 'joined')) if ok else z3.BoolVal(False))
+
+
+class DoAsyncMain(Unit):
+    """ParmapperAsync.__iter__.<locals>._do_async.<locals>.main: the helper coroutine ends once the stop flag is set (polls every second)."""
+    prop = 'C05'
+    file = FS
+    qual = 'ParmapperAsync.__iter__.<locals>._do_async.<locals>.main'
+    ignore_calls = ('asyncio.sleep',)
+    unreachable_ok = ('await asyncio.sleep',)       # under stop the polling loop exits before sleeping again
+    ignore_stmts = (r'for cm in self\._async_context\.values\(\):.*',)
+    canaries = (('never checks the flag', 'if to_stop.is_set():', 'if False:', ''),)
+
+    def setup(self, ex):
+        st = St()
+        self.ev = Event(ex, 'to_stop')
+        self.ev.init(st, is_set=True)          # under stop: flag set and stable
+        st.env['to_stop'] = self.ev
+        st.cells['self'] = Rec(ex, 'self', immutable=True)
+
+        class Stack(Obj):
+            def havoc(self, ex, st):
+                pass
+
+            def cm_enter(self, ex, st, node):
+                return [('ok', st, self)]
+
+            def cm_exit(self, ex, st, node, outcome):
+                return [('ok', st, False)]
+        ex.globals['contextlib.AsyncExitStack'] = Fn(lambda e, s, a, k, n: [('ok', s, Stack(e, 'stack'))])
+        return st
+
+    @property
+    def loops(self):
+        sp = LoopSpec(inv=lambda s, ex: self.ev.get(s, 'flag'))
+        sp.on_backedge = lambda s, ex: ex.oblige(s, 'under stop: the polling loop does not iterate again once the flag is set', False)
+        return {0: sp, 1: sp}
+
+    def post(self, ex, outs):
+        for k, s, p in outs:
+            if k == 'raise':
+                ex.oblige(s, 'exit: does not raise', False)
+            else:
+                ex.oblige(s, 'exit: reached (the coroutine ends under stop)', True)
+
+
+UNITS += [SyncIterWorkerMain, SyncIterIter, ParmapperAsyncIter, DoAsyncMain]
